@@ -35,6 +35,9 @@ func init() {
 	probes["O21"] = probeO21
 	probes["O22"] = probeO22
 	probes["O25"] = probeO25
+	probes["O26"] = probeO26
+	probes["O27"] = probeO27
+	probes["O28"] = probeO28
 	probes["O23"] = probeO23
 	probes["O24"] = probeO24
 }
@@ -394,5 +397,40 @@ func probeO25() (bool, string) {
 			return fmt.Sprintf("a=%v b=%v %v", m["a"], m["b"], err)
 		})
 		return a != b, "Unpack of {a: \"${b}x\", b: \"${a:d}\"} under sorted / reversed enumeration: " + a + " / " + b
+	})
+}
+
+func probeO26() (bool, string) {
+	return guard(func() (bool, string) {
+		_, err := ucfg.NewFrom(map[string]interface{}{"a": complex(1, 2)})
+		_, err2 := ucfg.NewFrom(map[string]interface{}{"a": uintptr(1)})
+		return err == nil || err2 == nil, fmt.Sprint(err, err2)
+	})
+}
+
+func probeO27() (bool, string) {
+	return guard(func() (bool, string) {
+		src, _ := ucfg.NewFrom(map[string]interface{}{"a": 1})
+		var z, z2 ucfg.Config
+		if err := src.Unpack(&z); err != nil {
+			return true, err.Error()
+		}
+		z2.SetInt("x", -1, 1)
+		z2.Merge(src)
+		src.Merge(z2)
+		var z3 ucfg.Config
+		z3.FlattenedKeys()
+		z3.Remove("a", -1)
+		return false, ""
+	})
+}
+
+func probeO28() (bool, string) {
+	return guard(func() (bool, string) {
+		c, _ := ucfg.NewFrom(map[string]interface{}{"a": 1})
+		var p *struct{ A int }
+		var m map[string]interface{}
+		err, err2 := c.Unpack(p), c.Unpack(m)
+		return err == nil || err2 == nil, fmt.Sprint(err, err2)
 	})
 }
